@@ -93,13 +93,17 @@ func tangentLabel(a, b, c, d s2.Point) tangentInfo {
 	norm := a.PointCross(b)
 	at := a.Cross(norm.Vector)
 	bt := norm.Cross(b.Vector)
+	// when the float cross product vanishes (a == b, or closer than ~1e-154)
+	// the library substitutes an arbitrary orthogonal vector: there is no exact
+	// plane to compare with.
+	fallback := a.Add(b.Vector).Cross(b.Sub(a.Vector)) == (r3.Vector{})
 	ca, da := c.Dot(at), d.Dot(at)
 	cb, db := c.Dot(bt), d.Dot(bt)
 	ti := tangentInfo{}
 	ti.reject = (ca > tangentMaxError && da > tangentMaxError) || (cb > tangentMaxError && db > tangentMaxError)
 	// exact signs, only where the float value is positive enough to matter
 	const look = 0.25 * tangentMaxError
-	if ca > look || da > look || cb > look || db > look {
+	if !fallback && (ca > look || da > look || cb > look || db > look) {
 		vs, _ := exact.IntVecs(a.Vector, b.Vector, c.Vector, d.Vector)
 		A, B, C, D := vs[0], vs[1], vs[2], vs[3]
 		N := exact.Cross(exact.Add(A, B), exact.Sub(B, A))
@@ -188,11 +192,13 @@ func tangentPoint(t *rapid.T, l string, a, b s2.Point) s2.Point {
 		return gen.Related(t, l, []s2.Point{a, b})
 	}
 	var theta float64
-	switch rapid.IntRange(0, 3).Draw(t, l+".tk") {
-	case 0:
+	switch rapid.IntRange(0, 9).Draw(t, l+".tk") {
+	case 4:
 		theta = 0
-	case 1:
+	case 3:
 		theta = math.Pow(10, rapid.Float64Range(-17, -12).Draw(t, l+".te"))
+	case 0, 2, 6, 8:
+		theta = rapid.Float64Range(0.02, 1.55).Draw(t, l+".tu")
 	default:
 		theta = math.Pow(10, rapid.Float64Range(-12, 0.15).Draw(t, l+".te"))
 	}
@@ -237,6 +243,45 @@ func edgeAB(t *rapid.T) (a, b s2.Point) {
 	return a, b
 }
 
+// notAnti returns p, or a fresh uniform point if p is exactly antipodal to one
+// of the others (such pairs are outside the domain; constructing instead of
+// filtering keeps the discard rate low).
+func notAnti(t *rapid.T, l string, p s2.Point, others ...s2.Point) s2.Point {
+	for _, o := range others {
+		if antipodal(p, o) {
+			return gen.Uniform(t, l+".re")
+		}
+	}
+	return p
+}
+
+// fresh returns p, or a fresh uniform point if bad(p).
+func fresh(t *rapid.T, l string, p s2.Point, bad func(s2.Point) bool) s2.Point {
+	for i := 0; i < 3 && bad(p); i++ {
+		p = gen.Uniform(t, fmt.Sprintf("%s.re%d", l, i))
+	}
+	return p
+}
+
+// tangentStress: (a, b, c) found by a directed random search (about 1e10
+// samples) where c is NOT beyond the plane of the outward tangent at a in exact
+// arithmetic but the library's float computation c·aTangent exceeds its
+// maxError (2.08 eps) — up to 3.0 eps, because NewEdgeCrosser does not
+// normalise PointCross(a,b) (|norm| is up to 2) while the error analysis quoted
+// in crossingSign assumes a unit normal. No wrong CrossingSign answer is known;
+// the family concentrates the search where the early exit is least safe.
+var tangentStress = [][3]gen.P{
+	{{-0.25213636108443954, -0.828740763744939, -0.4996158543586786}, {-0.6077073755915771, 0.542921926739973, -0.5795925526751992}, {-0.7804068768731942, -0.277054308523371, 0.5605408251480561}},
+	{{-0.25213636108443954, -0.828740763744939, -0.4996158543586786}, {-0.6077073755915771, 0.542921926739973, -0.5795925526751992}, {-0.7731690365789202, -0.24012253389038898, 0.5869845054119258}},
+	{{0.2483876412376378, 0.14858307653907998, 0.9571972884659592}, {0.45701861007899197, -0.7474379317748189, -0.4821519762332697}, {0.7451137083427618, 0.6385472459524504, -0.1925174701844965}},
+	{{0.8081797207403238, -0.578030101203779, 0.11281285869279722}, {0.2845483067324234, 0.615869546160732, 0.7346679271939704}, {0.2201604824394609, -0.8062203921041731, 0.5491247957681548}},
+	{{-0.599891732095895, -0.11621503994073878, 0.791595840220601}, {0.7310529768741051, -0.5998014846588465, 0.32526869508846473}, {-0.7387708257841541, -0.6152571917326186, 0.27509317510889086}},
+	{{0.4221463332754615, -0.7993685986379507, -0.42755387591937677}, {-0.6373572780106669, 0.09409609779830873, -0.7648016896856102}, {0.7454151253131946, -0.215917836753784, -0.6306629676189025}},
+	{{0.7425741458422478, 0.37882695697665925, -0.5523348392003357}, {-0.6995645635694845, 0.6212758014133504, -0.353023795198052}, {0.7657771539235483, 0.6027488976065849, -0.22423005365650037}},
+	{{-0.801278826671119, -0.5930296227884595, -0.07917138639642479}, {-0.3960715455493964, 0.7266196107632553, 0.5613833557030061}, {-0.37532165235371134, -0.764469134776967, 0.5241379582207678}},
+	{{0.14206612470562643, 0.6316641416425276, 0.7621139208636294}, {-0.646548594844418, -0.42768370822467544, 0.6317131945937962}, {-0.24224483248242853, 0.840429649092063, 0.4847632886910394}},
+}
+
 type quad struct{ A, B, C, D gen.P }
 
 func mkQuad(a, b, c, d s2.Point) quad {
@@ -245,14 +290,32 @@ func mkQuad(a, b, c, d s2.Point) quad {
 
 func genQuad(t *rapid.T) quad {
 	var a, b, c, d s2.Point
+	// NB rapid's IntRange is strongly biased towards small values and the
+	// maximum; the case numbers are ordered with that in mind.
 	switch rapid.IntRange(0, 9).Draw(t, "family") {
-	case 0, 1:
+	case 2, 8:
 		ps := gen.Tuple(t, "p", 4)
 		a, b, c, d = ps[0], ps[1], ps[2], ps[3]
-	case 2, 3:
+	case 1, 6:
 		ps := gen.CoplanarTuple(t, "p", 4)
 		a, b, c, d = ps[0], ps[1], ps[2], ps[3]
-	case 4, 5, 6:
+	case 9:
+		e := tangentStress[rapid.IntRange(0, len(tangentStress)-1).Draw(t, "stress")]
+		a, b, c = e[0].Pt(), e[1].Pt(), e[2].Pt()
+		switch rapid.IntRange(0, 2).Draw(t, "ck") {
+		case 1:
+			c = gen.Perturb(t, "cp", c, 3)
+		case 2:
+			c = tangentPoint(t, "c", a, b)
+		}
+		d = tangentPoint(t, "d", a, b)
+		if rapid.Bool().Draw(t, "swapab") {
+			a, b = b, a
+		}
+		if rapid.Bool().Draw(t, "swapcd") {
+			c, d = d, c
+		}
+	case 0, 4, 7:
 		// tangent early-exit region at a or at b
 		a, b = edgeAB(t)
 		if rapid.Bool().Draw(t, "atb") {
@@ -270,7 +333,7 @@ func genQuad(t *rapid.T) quad {
 		if rapid.Bool().Draw(t, "swapcd") {
 			c, d = d, c
 		}
-	case 7:
+	case 5:
 		// properly crossing by construction: c,d on either side of an interior point
 		a, b = edgeAB(t)
 		f := rapid.Float64Range(0, 1).Draw(t, "f")
@@ -287,26 +350,33 @@ func genQuad(t *rapid.T) quad {
 		c = gen.Related(t, "c", []s2.Point{a, b})
 		d = gen.Related(t, "d", []s2.Point{a, b, c})
 	}
+	b = notAnti(t, "b", b, a)
+	d = notAnti(t, "d", d, c)
 	// forced vertex sharing / degeneracy
-	switch rapid.IntRange(0, 19).Draw(t, "share") {
-	case 0:
+	switch rapid.IntRange(0, 59).Draw(t, "share") {
+	case 20:
 		c = a
-	case 1:
+	case 21:
 		d = b
-	case 2:
+	case 22:
 		c, d = a, b
-	case 3:
+	case 23:
 		c, d = b, a
-	case 4:
+	case 24:
 		b = a
-	case 5:
+	case 25:
 		d = c
-	case 6:
+	case 26:
 		b, c = a, a
-	case 7:
+	case 27:
 		b, c, d = a, a, a
-	case 8:
+	case 28:
 		d = a
+	case 29:
+		c = b
+	}
+	if antipodal(c, d) { // only after forced sharing on an (allowed) cross-edge antipodal pair
+		d = gen.Uniform(t, "d.re2")
 	}
 	return mkQuad(a, b, c, d)
 }
@@ -435,33 +505,37 @@ func genHist(t *rapid.T) hist {
 	n := rapid.IntRange(2, 8).Draw(t, "n")
 	fam := rapid.IntRange(0, 4).Draw(t, "family")
 	switch fam {
-	case 0:
+	case 1:
 		// everything exactly on one great circle
 		ps := gen.CoplanarTuple(t, "p", n+2)
-		a, b, pool = ps[0], ps[1], ps[2:]
+		a, b = ps[0], notAnti(t, "b", ps[1], ps[0])
+		for i, p := range ps[2:] {
+			pool = append(pool, notAnti(t, fmt.Sprintf("v%d", i), p, pool...))
+		}
 	default:
 		a, b = edgeAB(t)
+		b = notAnti(t, "b", b, a)
 		for i := 0; i < n; i++ {
 			l := fmt.Sprintf("v%d", i)
 			prev := append([]s2.Point{a, b}, pool...)
 			var p s2.Point
 			switch rapid.IntRange(0, 7).Draw(t, l+".k") {
-			case 0:
+			case 2:
 				p = a
-			case 1:
+			case 3:
 				p = b
-			case 2, 3:
+			case 1, 4:
 				if rapid.Bool().Draw(t, l+".end") {
 					p = tangentPoint(t, l, a, b)
 				} else {
 					p = tangentPoint(t, l, b, a)
 				}
-			case 4:
+			case 5:
 				p = gen.Base(t, l)
 			default:
 				p = gen.Related(t, l, prev)
 			}
-			pool = append(pool, p)
+			pool = append(pool, notAnti(t, l, p, pool...))
 		}
 	}
 	if rapid.IntRange(0, 14).Draw(t, "degAB") == 0 {
@@ -629,6 +703,8 @@ func genVC(t *rapid.T) quad {
 		ps = gen.Tuple(t, "p", 4)
 	}
 	a, b, c, d := ps[0], ps[1], ps[2], ps[3]
+	b = notAnti(t, "b", b, a)
+	d = notAnti(t, "d", d, c)
 	// the reference direction used for the sweep is Ortho(shared vertex): put
 	// an edge exactly on it now and then
 	switch rapid.IntRange(0, 7).Draw(t, "ref") {
@@ -677,6 +753,12 @@ func genVC(t *rapid.T) quad {
 		default:
 			d = b
 		}
+	}
+	if antipodal(c, d) {
+		d = gen.Uniform(t, "d.re2")
+	}
+	if antipodal(a, b) {
+		b = gen.Uniform(t, "b.re2")
 	}
 	return mkQuad(a, b, c, d)
 }
@@ -783,6 +865,12 @@ func genCorner(t *rapid.T) corner {
 		// order: B first -> A,B,C,P,Q
 		ps = []s2.Point{ps[1], ps[0], ps[2], ps[3], ps[4]}
 	}
+	b := ps[1]
+	offB := func(x s2.Point) bool { return x == b || antipodal(x, b) }
+	ps[0] = fresh(t, "a", ps[0], offB)
+	ps[2] = fresh(t, "c", ps[2], func(x s2.Point) bool { return offB(x) || x == ps[0] })
+	ps[3] = fresh(t, "p", ps[3], func(x s2.Point) bool { return offB(x) || x == ps[0] || x == ps[2] })
+	ps[4] = fresh(t, "q", ps[4], func(x s2.Point) bool { return offB(x) || x == ps[0] || x == ps[2] })
 	return corner{gen.FromPt(ps[0]), gen.FromPt(ps[1]), gen.FromPt(ps[2]), gen.FromPt(ps[3]), gen.FromPt(ps[4])}
 }
 
@@ -888,6 +976,19 @@ func genFan(t *rapid.T) fan {
 			vs = append(vs, p)
 		}
 	}
+	for i := range vs {
+		vs[i] = fresh(t, fmt.Sprintf("v%d", i), vs[i], func(x s2.Point) bool {
+			if x == b || antipodal(x, b) {
+				return true
+			}
+			for _, y := range vs[:i] {
+				if x == y {
+					return true
+				}
+			}
+			return false
+		})
+	}
 	return fan{gen.FromPt(b), gen.FromPts(vs)}
 }
 
@@ -986,21 +1087,21 @@ func checkFan(f fan) ev.Outcome {
 
 func init() {
 	ev.Define("crossing_sign_oracle", ev.Options{
-		Rule: "quadruples: related/general tuples, 4 points exactly on one great circle, c,d next to the planes of the outward-tangent early exit at a or b (offset 0..±40·2^-54 or 1e-17..0.5 along AB, any angle around it, ±3 ulps; AB long/short/related), crossing by construction, forced sharing of 1-4 vertices and degenerate edges. Excluded (skipped): non-unit points, exactly antipodal a,b or c,d. Oracle = four exact orientations (integer determinant, independent SoS), MaybeCross iff bit-identical vertex shared, degenerate edge -> DoNotCross. Non-trivial = triageSign does not already put c,d strictly on one side of AB, or a vertex is shared.",
-		Quick: 160000, Thorough: 8000000}, genQuad, checkCrossingSign)
+		Rule: "quadruples: related/general tuples, 4 points exactly on one great circle, c,d next to the planes of the outward-tangent early exit at a or b (offset 0..±40·2^-54 or 1e-17..0.5 along AB, any angle around it, ±3 ulps; AB long/short/related; plus 9 stored (a,b,c) where the float tangent test is known to exceed its error bound), crossing by construction, forced sharing of 1-4 vertices and degenerate edges. Excluded (skipped): non-unit points, exactly antipodal a,b or c,d. Oracle = four exact orientations (integer determinant, independent SoS), MaybeCross iff bit-identical vertex shared, degenerate edge -> DoNotCross. Non-trivial = triageSign does not already put c,d strictly on one side of AB, or a vertex is shared.",
+		Quick: 300000, Thorough: 12000000}, genQuad, checkCrossingSign)
 	ev.Define("crossing_sign_symmetry", ev.Options{
 		Rule:  "same quadruples; the 8 forms (reverse AB, reverse CD, swap edges) of CrossingSign are equal; EdgeOrVertexCrossing invariant under reversing either edge. Non-trivial as for crossing_sign_oracle.",
-		Quick: 160000, Thorough: 8000000}, genQuad, checkSymmetry)
+		Quick: 300000, Thorough: 12000000}, genQuad, checkSymmetry)
 	ev.Define("crosser_history", ev.Options{
 		Rule:  "one EdgeCrosser(a,b) (or NewChainEdgeCrosser) and 1..40 ops drawn as data over a pool of 2..8 vertices (copies of a and b, tangent-region points, related points, or everything exactly on one great circle; AB degenerate in 1/15): CrossingSign(c,d) (2/3 continuing the chain), ChainCrossingSign(d), RestartAt(c), EdgeOrVertexCrossing(c,d), EdgeOrVertexChainCrossing(d). After every call the answer must equal the exact oracle for (model's current c, d). Non-trivial = >=1 restart and >=1 call where triageSign does not put c,d strictly on one side of AB.",
-		Quick: 24000, Thorough: 1200000}, genHist, checkHist)
+		Quick: 40000, Thorough: 1800000}, genHist, checkHist)
 	ev.Define("vertex_crossing_props", ev.Options{
 		Rule:  "quadruples with forced sharing patterns (one shared vertex in each of the 4 positions, two shared, degenerate edges, 3 and 4 identical, an edge exactly along Ortho(shared vertex)): VertexCrossing properties (1),(2),(3), exactly-one-of VC(a,b,c,d)/VC(c,d,a,b) for one shared vertex; EdgeOrVertexCrossing (function and method) == oracle Cross, or VertexCrossing when the oracle says MaybeCross. Non-trivial = fewer than 4 distinct points.",
-		Quick: 80000, Thorough: 4000000}, genVC, checkVC)
+		Quick: 150000, Thorough: 6000000}, genVC, checkVC)
 	ev.Define("vertex_crossing_parity", ev.Options{
 		Rule:  "corner A,B,C and two more points P,Q (related points, exactly coplanar families, the reference direction Ortho(B)); the parity VC(B,P,A,B) xor VC(B,P,B,C) differs between P and Q iff exactly one of the rays BP,BQ lies in the CCW wedge from BA to BC by the exact oracle; the chain crosser over A,B,C counts the same parity. Non-trivial = at least one of the six ray pairs is exactly collinear with B.",
-		Quick: 60000, Thorough: 3000000}, genCorner, checkCorner)
+		Quick: 100000, Thorough: 4500000}, genCorner, checkCorner)
 	ev.Define("angle_contains_vertex", ev.Options{
 		Rule:  "2..7 distinct rays from b (related points, exactly coplanar, the reference direction Ortho(b)), sorted CCW around b with the exact oracle (sort verified to be a cyclic order): AngleContainsVertex(v[i+1],b,v[i]) true for exactly one i; properties (1),(2). Non-trivial = two rays exactly collinear with b or a ray along Ortho(b).",
-		Quick: 40000, Thorough: 2000000}, genFan, checkFan)
+		Quick: 60000, Thorough: 3000000}, genFan, checkFan)
 }
